@@ -14,6 +14,7 @@ import (
 	"flag"
 	"fmt"
 	"os"
+	"runtime"
 	"strings"
 	"sync"
 	"sync/atomic"
@@ -32,11 +33,12 @@ type Op struct {
 	D     int64  `json:"d,omitempty"` // adv: clock advance in ns
 }
 type Cfg struct {
-	Broker   bool  `json:"broker"`
-	Exp      int64 `json:"exp"`                 // Filter.Expiration in ns (0 = unset -> 10 s default)
-	CFailLen int   `json:"cfail_len,omitempty"` // ComposeFrom fails for groups of this size
-	CGateLen int   `json:"cgate_len,omitempty"` // ComposeFrom returns a Gateable payload for groups of this size
-	SFail    int   `json:"sfail,omitempty"`     // the n-th Broker.Send fails
+	Broker     bool  `json:"broker"`
+	Exp        int64 `json:"exp"`                   // Filter.Expiration in ns (0 = unset -> 10 s default)
+	CFailLen   int   `json:"cfail_len,omitempty"`   // ComposeFrom fails for groups of this size
+	CGateLen   int   `json:"cgate_len,omitempty"`   // ComposeFrom returns a Gateable payload for groups of this size
+	CGateFlush bool  `json:"cgate_flush,omitempty"` // ... and that Gateable composite reports FlushEvent() == true
+	SFail      int   `json:"sfail,omitempty"`       // the n-th Broker.Send fails
 }
 type Case struct {
 	ID  int    `json:"id"`
@@ -68,6 +70,7 @@ type world struct {
 	sends        int
 	sentGateable bool
 	now          int64 // atomic
+	sameType     bool  // reentry scenarios: the composite keeps the event type of the group, so it is routed into the same pipeline
 }
 
 var cur *world // the world of the case being executed (ComposeFrom may be called on a nil receiver)
@@ -93,10 +96,15 @@ func (g *gp) GetID() string    { return g.id }
 func (g *gp) FlushEvent() bool { return g.flush }
 
 type composite struct{ evs []pair }
-type gcomposite struct{ composite } // a composite that is (wrongly) itself Gateable
+
+// a composite that is (wrongly) itself Gateable, as a flush event or not
+type gcomposite struct {
+	composite
+	flush bool
+}
 
 func (g *gcomposite) GetID() string    { return "composite" }
-func (g *gcomposite) FlushEvent() bool { return false }
+func (g *gcomposite) FlushEvent() bool { return g.flush }
 func (g *gcomposite) ComposeFrom(evs []*el.Event) (el.EventType, interface{}, error) {
 	return composeFrom(evs)
 }
@@ -117,8 +125,14 @@ func composeFrom(evs []*el.Event) (el.EventType, interface{}, error) {
 	if w.cfg.CFailLen != 0 && len(arg) == w.cfg.CFailLen {
 		return "", nil, errors.New("compose failed")
 	}
+	if w.sameType && len(evs) > 0 {
+		if w.cfg.CGateLen != 0 && len(arg) == w.cfg.CGateLen {
+			return evs[0].Type, &gcomposite{composite{arg}, w.cfg.CGateFlush}, nil
+		}
+		return evs[0].Type, &composite{arg}, nil
+	}
 	if w.cfg.CGateLen != 0 && len(arg) == w.cfg.CGateLen {
-		return "composed", &gcomposite{composite{arg}}, nil
+		return "composed", &gcomposite{composite{arg}, w.cfg.CGateFlush}, nil
 	}
 	return "composed", &composite{arg}, nil
 }
@@ -358,6 +372,129 @@ func execConc(c Case) (o CObs, panicked interface{}) {
 	return
 }
 
+// ---------- re-entry scenarios (gated part of C12, and C11's "composites through the Broker are never Gateable") ----------
+// The filter is wired to the very Broker whose pipeline contains it, so every composite it sends while holding its mutex
+// comes back into its own Process.  A non-Gateable composite returns before the first Lock; a Gateable one would park on
+// the mutex held by the flush that sent it.  Every call runs under a watchdog; a hang is reported with a goroutine dump.
+type passNode struct {
+	typ      el.NodeType
+	mu       sync.Mutex
+	gateable int // Gateable composites seen (tap in front of the filter)
+	plain    int // non-Gateable composites seen
+	seen     int
+}
+
+func (n *passNode) Process(ctx context.Context, e *el.Event) (*el.Event, error) {
+	n.mu.Lock()
+	n.seen++
+	if _, ok := e.Payload.(*gcomposite); ok {
+		n.gateable++
+	}
+	if _, ok := e.Payload.(*composite); ok {
+		n.plain++
+	}
+	n.mu.Unlock()
+	if n.typ == el.NodeTypeSink {
+		return nil, nil
+	}
+	return e, nil
+}
+func (n *passNode) Reopen() error     { return nil }
+func (n *passNode) Type() el.NodeType { return n.typ }
+
+type ReentryResult struct {
+	Scenario        string   `json:"scenario"`
+	Composite       string   `json:"composite"` // plain gateable gateable-flush
+	Steps           []string `json:"steps"`
+	Hang            bool     `json:"hang"`
+	HungAt          string   `json:"hung_at,omitempty"`
+	GateableThrough int      `json:"gateable_composites_routed_by_the_broker"`
+	PlainThrough    int      `json:"plain_composites_routed_back_into_the_filter"`
+	Dump            string   `json:"goroutine_dump,omitempty"`
+}
+
+func within(d time.Duration, f func()) (ok bool, dump string) {
+	done := make(chan struct{})
+	go func() { defer close(done); f() }()
+	select {
+	case <-done:
+		return true, ""
+	case <-time.After(d):
+		buf := make([]byte, 1<<16)
+		buf = buf[:runtime.Stack(buf, true)]
+		return false, string(buf)
+	}
+}
+
+func runReentry(watchdog time.Duration) []ReentryResult {
+	var out []ReentryResult
+	kinds := []struct {
+		name string
+		cfg  Cfg
+	}{
+		{"plain", Cfg{Broker: true, Exp: 10}},
+		{"gateable", Cfg{Broker: true, Exp: 10, CGateLen: 1}},
+		{"gateable-flush", Cfg{Broker: true, Exp: 10, CGateLen: 1, CGateFlush: true}},
+	}
+	for _, k := range kinds {
+		for _, sc := range []string{"expiry-during-process", "flushall", "close-by-remove-pipeline-and-nodes"} {
+			w := &world{cfg: k.cfg, now: 1000, sameType: true}
+			cur = w
+			b, err := el.NewBroker()
+			if err != nil {
+				panic(err)
+			}
+			f := &gated.Filter{Broker: b, Expiration: time.Duration(w.cfg.Exp), NowFunc: func() time.Time { return time.Unix(0, atomic.LoadInt64(&w.now)) }}
+			tap := &passNode{typ: el.NodeTypeFilter}
+			nodes := map[el.NodeID]el.Node{"tap": tap, "gate": f, "fmt": &passNode{typ: el.NodeTypeFormatter}, "sink": &passNode{typ: el.NodeTypeSink}}
+			for id, n := range nodes {
+				if err := b.RegisterNode(id, n); err != nil {
+					panic(err)
+				}
+			}
+			if err := b.RegisterPipeline(el.Pipeline{PipelineID: "p", EventType: "t", NodeIDs: []el.NodeID{"tap", "gate", "fmt", "sink"}}); err != nil {
+				panic(err)
+			}
+			ctx := context.Background()
+			r := ReentryResult{Scenario: sc, Composite: k.name}
+			n := 0
+			send := func(id string) func() {
+				return func() {
+					n++
+					_, _ = b.Send(ctx, "t", &gp{id: id, n: n})
+				}
+			}
+			type step struct {
+				name string
+				f    func()
+			}
+			steps := []step{{"Send(a)", send("a")}}
+			switch sc {
+			case "expiry-during-process":
+				steps = append(steps, step{"advance clock past expiry", func() { atomic.AddInt64(&w.now, 11) }}, step{"Send(b) flushes expired a", send("b")}, step{"Send(c)", send("c")})
+			case "flushall":
+				steps = append(steps, step{"FlushAll", func() { _ = f.FlushAll(ctx) }}, step{"Send(c)", send("c")})
+			default:
+				steps = append(steps, step{"RemovePipelineAndNodes", func() { _, _ = b.RemovePipelineAndNodes(ctx, "t", "p") }})
+			}
+			for _, st := range steps {
+				ok, dump := within(watchdog, st.f)
+				r.Steps = append(r.Steps, st.name)
+				if !ok {
+					r.Hang, r.HungAt, r.Dump = true, st.name, dump
+					break
+				}
+			}
+			tap.mu.Lock()
+			r.GateableThrough = tap.gateable
+			r.PlainThrough = tap.plain
+			tap.mu.Unlock()
+			out = append(out, r)
+		}
+	}
+	return out
+}
+
 // ---------- Gallina literals ----------
 func pairsLit(ps []pair) string {
 	s := make([]string, len(ps))
@@ -479,6 +616,9 @@ func (e *emitter) emit(c Case) []Obs {
 	}
 	if c.Cfg.CGateLen != 0 {
 		e.stats["cfg:compose_gateable"]++
+		if c.Cfg.CGateFlush {
+			e.stats["cfg:compose_gateable_flush"]++
+		}
 	}
 	if c.Cfg.SFail != 0 {
 		e.stats["cfg:send_fail"]++
@@ -545,6 +685,9 @@ func configs(full bool) []Cfg {
 		cs = append(cs, Cfg{Broker: broker, Exp: 10})
 		cs = append(cs, Cfg{Broker: broker, Exp: 10, CFailLen: 1}, Cfg{Broker: broker, Exp: 10, CFailLen: 2})
 		cs = append(cs, Cfg{Broker: broker, Exp: 10, CGateLen: 1})
+		if broker {
+			cs = append(cs, Cfg{Broker: true, Exp: 10, CGateLen: 1, CGateFlush: true})
+		}
 		if full {
 			cs = append(cs, Cfg{Broker: broker, Exp: 10, CGateLen: 2}, Cfg{Broker: broker, Exp: 0})
 		}
@@ -655,6 +798,7 @@ func genRandom(e *emitter, r *hc.Rand, n, maxLen, ids int) {
 			cfg.CFailLen = 1 + r.Intn(4)
 		case 1:
 			cfg.CGateLen = 1 + r.Intn(3)
+			cfg.CGateFlush = r.Bool()
 		case 2:
 			if cfg.Broker {
 				cfg.SFail = 1 + r.Intn(5)
@@ -662,6 +806,7 @@ func genRandom(e *emitter, r *hc.Rand, n, maxLen, ids int) {
 		case 3:
 			cfg.CFailLen = 1 + r.Intn(3)
 			cfg.CGateLen = 1 + r.Intn(3)
+			cfg.CGateFlush = r.Bool()
 		}
 		E := cfg.effExp()
 		advs := []int64{1, 1, 2, E - 1, E, E + 1, E / 2, 2*E + 1}
@@ -764,7 +909,25 @@ func main() {
 	perShard := flag.Int("per-shard", 250, "cases per file")
 	corpus := flag.String("corpus", "", "corpus file (JSON lines), run first")
 	replay := flag.String("replay", "", "replay one JSON case and print its observations")
+	reentry := flag.Bool("reentry", false, "run only the wired-to-the-same-broker watchdog scenarios and write reentry.json")
+	watchdog := flag.Duration("watchdog", 3*time.Second, "watchdog of the reentry scenarios")
 	flag.Parse()
+
+	if *reentry {
+		res := runReentry(*watchdog)
+		js, _ := json.MarshalIndent(res, "", " ")
+		if err := os.WriteFile(*out+"/reentry.json", js, 0o644); err != nil {
+			panic(err)
+		}
+		hangs := 0
+		for _, r := range res {
+			if r.Hang {
+				hangs++
+			}
+		}
+		fmt.Printf("gatedh: %d reentry scenarios, %d hung\n", len(res), hangs)
+		return
+	}
 
 	if *replay != "" {
 		data, err := os.ReadFile(*replay)
